@@ -163,6 +163,12 @@ class RepoIndex:
                     continue
                 dflt = f.param_defaults()
                 for p_, d in dflt.items():
+                    if isinstance(d, ast.Name) and len(m.assigns.get(d.id, [])) == 1 and \
+                            isinstance(m.assigns[d.id][0], ast.Constant) and \
+                            not any(isinstance(n, ast.Name) and n.id == d.id and
+                                    isinstance(n.ctx, ast.Store) for fn_ in m.functions.values()
+                                    for n in ast.walk(fn_.node)):
+                        d = m.assigns[d.id][0]       # a module-level constant
                     if p_ not in old and isinstance(d, ast.Constant) and \
                             not isinstance(d.value, (bytes, type(Ellipsis))):
                         cand.append((f, p_, d))
